@@ -18,6 +18,7 @@ import (
 	"runtime/debug"
 	"runtime/pprof"
 	"sync"
+	"sync/atomic"
 	"time"
 
 	"verif/harness/adapt/ffts"
@@ -55,12 +56,26 @@ type env[E any, P fields.Ptr[E], D any, T any] struct {
 
 func (e *env[E, P, D, T]) hx(v T) string { return e.A.ToBig(v).Text(16) }
 
+// lib builds the library vector. Three times out of four it is a view that starts 1..3 elements into a larger
+// allocation: vectors handed to the transforms are often sub-slices, which are not aligned to the width of the vector
+// registers the way a fresh allocation is.
 func (e *env[E, P, D, T]) lib(vs []T) []E {
-	out := make([]E, len(vs))
+	off := int(libCalls.Add(1) % 4)
+	buf := make([]E, len(vs)+off)
+	out := buf[off : off+len(vs) : off+len(vs)]
 	for i := range vs {
 		out[i] = e.mk(vs[i])
 	}
 	return out
+}
+
+var libCalls atomic.Int64
+
+// work: a working buffer of n elements that the transforms are run in, laid out like lib.
+func (e *env[E, P, D, T]) work(n int) []E {
+	off := int(libCalls.Add(1) % 4)
+	buf := make([]E, n+off)
+	return buf[off : off+n : off+n]
 }
 
 func (e *env[E, P, D, T]) rnd(rng *gen.Rng) T { return e.A.FromBig(rng.BigBelow(e.A.Modulus())) }
